@@ -20,7 +20,7 @@ pub const SEP: &str = "\n//----8<----\n";
 pub fn write_inputs(a: &Args, seed: u64) -> Result<Vec<String>, String> {
     let verif = PathBuf::from(a.get("verif", "/verif"));
     let repo = PathBuf::from(a.get("repo", "/repo"));
-    let n = a.u64("e4-inputs", 6) as usize;
+    let n = a.u64("e4-inputs", 4) as usize;
     let corp = corpus::harvest(&repo);
     let mut rng = Rng::new(mix64(seed ^ 0xE4E4));
     let mut inputs: Vec<String> = vec![];
@@ -80,7 +80,7 @@ pub fn run(a: &Args, seed: u64) -> Result<E4Result, String> {
     let verif = PathBuf::from(a.get("verif", "/verif"));
     let t0 = real_now_s();
     let inputs = write_inputs(a, seed)?;
-    let n_seeds = a.u64("e4-seeds", 16);
+    let n_seeds = a.u64("e4-seeds", 12);
     let by_hash: BTreeMap<String, &String> =
         inputs.iter().map(|t| (format!("{:016x}", crate::scenario::fnv64(t)), t)).collect();
 
